@@ -219,13 +219,9 @@ func judgeNum(ctx *Ctx, fn c14NumFn, args []cty.Value, class string, res cty.Val
 			return
 		}
 		if x.IsInf() {
-			// ceil/floor: ±inf fixed; int: documented as an error
-			if fn.name == "int" {
-				if class != "err" {
-					fail("int-inf-not-error", "int(±inf) is documented as an error")
-				}
-			} else if class != "ok" || !okNumber(res) || res.AsBigFloat().Cmp(x) != 0 {
-				fail(fn.name+"-inf-not-fixed", "ceil/floor of an infinity is not that infinity")
+			// ±inf is a fixed point of ceil, floor and int
+			if class != "ok" || !okNumber(res) || res.AsBigFloat().Cmp(x) != 0 {
+				fail(fn.name+"-inf-not-fixed", "ceil/floor/int of an infinity is not that infinity")
 			}
 			return
 		}
